@@ -154,4 +154,37 @@ theorem exact_floor_lt (rn rd N : Nat) (h : rn < N * rd) : rn / rd + 1 ≤ N := 
   have : rn / rd < N := Nat.div_lt_of_lt_mul (by rw [Nat.mul_comm]; exact h)
   omega
 
+theorem value_le_max (prove : Bytes) : beToNat (prove.take 32) ≤ max256 := by
+  have h := beToNat_lt (prove.take 32)
+  have hl : (prove.take 32).length ≤ 32 := by simp
+  have : 256 ^ (prove.take 32).length ≤ 256 ^ 32 := Nat.pow_le_pow_right (by decide) hl
+  have e : (256 : Nat) ^ 32 = max256 + 1 := by decide
+  omega
+
+/-- Acceptance (`vrfValueRatio < stakeRatio`) bounds the exact ratio `r = v/(s'/maxQN)`
+    by `maxQN` for the capped stake ratio `s'`. -/
+theorem accepted_ratio_bound (vn : Nat) (s : Frac) (hv : vn ≤ max256)
+    (hok : Frac.lt ⟨vn, max256⟩ s = true) :
+    0 < (capRatio s).num ∧
+      (⟨(vn : Int), max256⟩ : Frac).num.toNat * (capRatio s).den ≤ max256 * (capRatio s).num.natAbs := by
+  unfold capRatio
+  split
+  · simp; exact hv
+  · unfold Frac.lt at hok
+    simp only [decide_eq_true_eq] at hok
+    have hpos : (0 : Int) ≤ (vn : Int) * (s.den : Int) := by positivity
+    have hm : (0 : Int) < (max256 : Int) := by decide
+    have hsn : 0 < s.num := by
+      by_contra hcon
+      have : s.num * (max256 : Int) ≤ 0 := Int.mul_nonpos_of_nonpos_of_nonneg (by omega) (by omega)
+      omega
+    refine ⟨hsn, ?_⟩
+    simp only [Int.toNat_natCast]
+    have : ((vn * s.den : Nat) : Int) < ((max256 * s.num.natAbs : Nat) : Int) := by
+      push_cast
+      rw [abs_of_pos hsn, Int.mul_comm (max256 : Int)]
+      exact hok
+    exact Nat.le_of_lt (by exact_mod_cast this)
+
+
 end Rangers.Proofs.C16Qn
